@@ -63,10 +63,14 @@ def ev(e, env, w=8):
                 return None
             f = {'BitAnd': _and, 'BitOr': _or, 'BitXor': _xor}[op]
             return [f(x, y) for x, y in zip(a, b)]
-        if op in ('Shl', 'Shr', 'ShlUnchecked', 'ShrUnchecked') and e[3][0] in ('const', 'cast'):
+        if op in ('Shl', 'Shr', 'ShlUnchecked', 'ShrUnchecked') and e[3][0] in ('const', 'cast', 'citem'):
             n = e[3]
             while n[0] == 'cast':
                 n = n[1]
+            if n[0] == 'citem':
+                for k, v in env:
+                    if k == n and all(x in (0, 1) for x in v):
+                        n = ('const', sum(bit << i for i, bit in enumerate(v)))
             if n[0] != 'const':
                 return None
             a = ev(e[2], env, w)
